@@ -202,7 +202,12 @@ class Gen:
         prev_para = False
         for _ in range(n):
             f = self.block(depth, top)
-            # an indented code block cannot interrupt a paragraph; with a blank line in between it is fine
+            # two adjacent lists would merge into one: keep a paragraph between them
+            is_list = bool(f.lines) and (f.lines[0][:2] in ("- ", "* ", "+ ") or f.lines[0][:3] in ("1. ", "1) ", "2. ", "7. ", "0. ", "2) ", "7) ", "0) "))
+            is_icode = bool(f.lines) and f.lines[0].startswith("    ")
+            if out and (is_icode or (prev_para and is_list)):
+                out.append(self.para(depth))
+            prev_para = is_list or is_icode
             out.append(f)
         return join(out)
 
@@ -267,7 +272,7 @@ class Gen:
         n = self.r.choice([3, 3, 4])
         ch = self.r.choice("`~")
         body = [f"{m} code", "  indented <b> & *x*", ""] if self.r.random() < 0.3 else [f"{m} code"]
-        return Frag([ch * n + lang] + body + [ch * n], [{"m": m, "off": 0, "kind": "literal_block", "chain": []}], tick=n if ch == "`" else 0)
+        return Frag([ch * n + lang] + body + [ch * n], [{"m": m, "off": 0, "kind": "literal_block", "chain": []}], tick=n)
 
     def b_fence_lang(self, depth, top):
         return self.b_fence(depth, top, self.r.choice(["python", "c", "unknownlang", "text", "{.cls} python"]) if True else "")
@@ -357,36 +362,44 @@ class Gen:
         n = max(3, body.colon + 1)
         return wrap("container", body, "", "", head=[":" * n + self.r.choice(["", " cls", "{.a #divid%d}" % self.n])], tail=[":" * n], colon=n)
 
+    def mk_directive(self, body, name="note", colon=False, style="none", nblank=0, tailblank=0, extra=0, ch=None, named=False, kind="admonition"):
+        """Deterministic directive wrapper: ``style`` none|colon|dash option block, ``nblank`` blank lines before the body."""
+        head = []
+        first = "{" + name + "}"
+        if name == "admonition":
+            first += " A title"
+        if style == "colon":
+            head += [":class: c1"] + ([":name: nm-%d-%d" % (self.n, self.r.randint(0, 99999))] if named else [])
+        elif style == "dash":
+            head += ["---", "class: c2", "---"]
+        if style == "colon" and nblank == 0 and body.lines and body.lines[0].lstrip().startswith(":"):
+            nblank = 1  # otherwise the body's first line would be read as one more option line
+        if style == "none" and nblank == 0 and body.lines and body.lines[0].lstrip().startswith(":") and not (colon and body.lines[0].startswith(":::")):
+            nblank = 1
+        head += [""] * nblank
+        tail = [""] * tailblank
+        content0 = (head + body.lines + [""])[0]
+        first_colon = bool(colon and content0.startswith(":::"))
+        if colon:
+            n = max(3, body.colon + 1) + extra
+            if not head and body.lines and body.lines[0].startswith(":") and style == "none":
+                pass  # a colon fence whose body starts with a colon fence: the renderer itself inserts a newline
+            f = wrap(kind, body, "", "", head=[":" * n + first] + head, tail=tail + [":" * n], colon=n)
+        else:
+            n = max(3, body.tick + 1) + extra
+            ch = ch or "`"
+            f = wrap(kind, body, "", "", head=[ch * n + first] + head, tail=tail + [ch * n], tick=n)
+        for mk in f.marks:
+            mk["chain"][0].append({"opts": style, "blank": nblank, "name": name, "colon": colon, "nhead": len(head), "first_colon": first_colon})
+        return f
+
     def _directive(self, depth, colon):
         r = self.r
         name = r.choice(self.ADMON + ["admonition"])
         body = self.blocks_seq(depth + 1, 1, 2)
-        head = []
         style = r.choice(["none", "none", "colon", "dash"])
-        first = "{" + name + "}"
-        if name == "admonition":
-            first += " A title " + self.words(0, 1)
-        if style == "colon":
-            head += [":class: c1"] + ([":name: nm-%d-%d" % (self.n, r.randint(0, 99999))] if r.random() < 0.5 else [])
-        elif style == "dash":
-            head += ["---", "class: c2", "---"]
         nblank = r.choice([0, 0, 1, 2]) if style != "none" else r.choice([0, 0, 1])
-        if style == "colon" and nblank == 0 and body.lines and body.lines[0].lstrip().startswith(":"):
-            nblank = 1
-        head += [""] * nblank
-        tailblank = [""] * r.choice([0, 0, 1])
-        if colon:
-            n = max(3, body.colon + 1) + r.choice([0, 0, 1])
-            if not head and body.lines and body.lines[0].startswith(":"):
-                head = [""]
-            f = wrap("admonition", body, "", "", head=[":" * n + first] + head, tail=tailblank + [":" * n], colon=n)
-        else:
-            n = max(3, body.tick + 1) + r.choice([0, 0, 1])
-            ch = "`" if body.tick or r.random() < 0.8 else "~"
-            f = wrap("admonition", body, "", "", head=[ch * n + first] + head, tail=tailblank + [ch * n], tick=n)
-        for mk in f.marks:
-            mk["chain"][0].append({"opts": style, "blank": nblank, "name": name})
-        return f
+        return self.mk_directive(body, name, colon, style, nblank, r.choice([0, 0, 1]), r.choice([0, 0, 1]), ch="`" if r.random() < 0.8 else "~", named=r.random() < 0.5)
 
     def b_directive(self, depth, top):
         return self._directive(depth, False)
